@@ -29,6 +29,18 @@ CLAIMED.update({
     design_ref="§4 C10", note="Trusted: rustc's type system for safe code, std's checked constructors, the interval domain for the exemption, the matcher's list of unchecked constructors (positive control checked each run). Dependencies not analysed.",
     technique="static analysis: whole-crate call-site rule on resolved callees + interval analysis of arguments"),
 })
+STRUCT_NOTE = "Trusted: rustc MIR construction, the mirfacts serialiser, expression reconstruction and CFG/dominator code in analysis/. The rule recognises the idioms listed in its module docstring; code rewritten into another shape is reported as unrecognised (fail closed)."
+CLAIMED.update({
+ "C13": dict(category="other",
+    text="Path rules on Buffer::get_char, decided for all stacks and positions: each Layer::get_char on a stack element is reached only with the layer visible and the translated position proven inside the layer rectangle (abstract interpretation), the layer is skipped only when the position is provably outside, the translation is pos - offset of the same layer, the walk is top-down, no path continues below an opaque layer, and the topmost transparent cell is never overwritten. These are necessary conditions of the stacking laws; colour values of transparent-cell merging are not decided.",
+    design_ref="§4 C13", note=STRUCT_NOTE, technique="static analysis: dominance/reachability rules + abstract interpretation on the MIR of Buffer::get_char"),
+ "C14": dict(category="other",
+    text="Schedule clauses decided for every completion order: crate-wide who-may-call rule on the decode queue (only push_back / front / pop_front / is_empty / len / clear), dominance rules in update_sixel_threads (join and pop only behind the finished branch of is_finished on the front handle of the same iteration, no other blocking call reachable, exactly one delivery per popped image after shadow removal, removal re-examines the index), plus R-PANIC over the decode thread body (a panicking decode loses its image). The width*height*4 clause is not decided.",
+    design_ref="§4 C14", note=STRUCT_NOTE, technique="static analysis: who-may-call + dominance/typestate rules on MIR, abstract interpretation for the decode body"),
+ "C16": dict(category="other",
+    text="Index-stability clause: in the call tree of insert_color the only mutation of Palette.colors is Vec::push; the found path returns the loop index under exactly the r/g/b comparisons (Color's PartialEq compares exactly r,g,b) and the not-found path returns len-1 after the push; the 6-bit expansion/reduction expressions of all channels have the canonical GF(2) normal form and the EGA encoder covers slots 0..16. Palette text-format round trips are not decided.",
+    design_ref="§4 C16", note=STRUCT_NOTE, technique="static analysis: effect (who-writes) rule over the call tree + return-value reconstruction + GF(2) normal forms"),
+})
 NOT_APPLICABLE = {p: PENDING for p in ["C%02d" % i for i in range(1, 21)]}
 NOT_APPLICABLE.update({
  "C05": "value-level: equality of pictures after save->load depends on run-time cell values along data-dependent paths of two separate programs (writer, reader); no structural clause is a genuine necessary condition that is not also a frozen-layout match (DESIGN §5)",
